@@ -169,6 +169,11 @@ fn evaluate(case: &Case, scalar: i64) -> Result<(usize, usize, bool), (String, S
             (h, o)
         }
     };
+    judge(&en, n, scalar, &h, &outs)
+}
+
+/// the bound of C07 for `en` at every step of a run (h: the inputs as the scalar saw them, outs: what the view reported)
+fn judge(en: &Entry, n: usize, scalar: i64, h: &[R], outs: &[Option<XV>]) -> Result<(usize, usize, bool), (String, String)> {
     let eps: f64 = match scalar {
         0 => f64::EPSILON,
         1 => f32::EPSILON as f64,
@@ -187,6 +192,27 @@ fn evaluate(case: &Case, scalar: i64) -> Result<(usize, usize, bool), (String, S
             f(few * eps) * b
         }
     };
+    // bounds that do not depend on the window's content are evaluated once
+    let fixed: Option<(Option<R>, Option<R>)> = match en.bound {
+        Bound::Range(a, b) => Some((Some(f(a)), Some(f(b)))),
+        Bound::Ln199 => {
+            let l = Q::from_ratio(R::from_integer(199.into())).ln_pub();
+            Some((Some(-l.clone()), Some(l)))
+        }
+        Bound::NonNeg => Some((Some(R::zero()), None)),
+        Bound::Vsct => {
+            let b = R::from_integer((n as i64 - 1).into()) / refs::sqrt(&R::from_integer((n as i64).into()));
+            Some((Some(-b.clone()), Some(b)))
+        }
+        Bound::MinMax => None,
+        Bound::Gte => Some((Some(f(CLIP)), None)),
+        Bound::Lte => Some((None, Some(f(CLIP)))),
+        Bound::Drawdown => Some((Some(R::zero()), Some(R::one()))),
+        Bound::Cog => {
+            let b = R::from_integer((n as i64 - 1).into()) / R::from_integer(2.into());
+            Some((Some(-b.clone()), Some(b)))
+        }
+    };
     let mut checked = 0;
     let mut near = 0;
     let mut degenerate = false;
@@ -196,29 +222,13 @@ fn evaluate(case: &Case, scalar: i64) -> Result<(usize, usize, bool), (String, S
         let Some(v) = o.fin() else {
             return Err(("nonfinite".into(), format!("step {t}: reported {}", o.show())));
         };
-        let w = refs::window(&h, t, n);
+        let w = refs::window(h, t, n);
         if w.windows(2).all(|p| p[0] == p[1]) {
             degenerate = true;
         }
         let (lo, hi): (Option<R>, Option<R>) = match en.bound {
-            Bound::Range(a, b) => (Some(f(a)), Some(f(b))),
-            Bound::Ln199 => {
-                let l = Q::from_ratio(R::from_integer(199.into())).ln_pub();
-                (Some(-l.clone()), Some(l))
-            }
-            Bound::NonNeg => (Some(R::zero()), None),
-            Bound::Vsct => {
-                let b = R::from_integer((n as i64 - 1).into()) / refs::sqrt(&R::from_integer((n as i64).into()));
-                (Some(-b.clone()), Some(b))
-            }
             Bound::MinMax => (Some(refs::min_of(w)), Some(refs::max_of(w))),
-            Bound::Gte => (Some(f(CLIP)), None),
-            Bound::Lte => (None, Some(f(CLIP))),
-            Bound::Drawdown => (Some(R::zero()), Some(R::one())),
-            Bound::Cog => {
-                let b = R::from_integer((n as i64 - 1).into()) / R::from_integer(2.into());
-                (Some(-b.clone()), Some(b))
-            }
+            _ => fixed.clone().unwrap(),
         };
         let width = match (&lo, &hi) {
             (Some(a), Some(b)) => (b - a).abs(),
@@ -288,6 +298,28 @@ fn check(case: &Case) -> Verdict {
     }
 }
 
+/// ultra-long runs at the exact scalar (where every bound holds without rounding slack): ints = [entry, 2, n, seed, len, shape]
+fn ultra_case(ei: usize) -> impl Fn(Tier) -> BoxedStrategy<Case> + Send + Sync {
+    move |tier: Tier| {
+        let en = TABLE[ei];
+        (prop_oneof![3 => en.min_n..=en.min_n + 6, 1 => 9usize..=24], 0usize..48, any::<u64>(), 0i64..4)
+            .prop_map(move |(n, p, seed, shape)| Case { spec: Some((en.mk)(n, p)), ints: vec![ei as i64, 2, n as i64, (seed >> 1) as i64, tier.pick(135_000, 1_100_000) as i64, shape], a: Rat(1, 1), ..Default::default() })
+            .boxed()
+    }
+}
+fn ultra_check(case: &Case) -> Verdict {
+    let en = TABLE[case.ints[0] as usize];
+    let n = case.ints[2] as usize;
+    let (seed, len, shape) = (case.ints[3] as u64, case.ints[4] as usize, case.ints[5]);
+    let spec = case.spec();
+    let h: Vec<R> = gen::ultra_stream(seed, len, shape).into_iter().map(|k| R::new((if en.positive { k.abs().max(1) } else { k }).into(), 8.into())).collect();
+    let outs = run_q(spec, &h);
+    match judge(&en, n, 2, &h, &outs) {
+        Ok((checked, _, degenerate)) => Verdict::pass(checked >= 70_000, if degenerate { vec![format!("shape_{shape}"), "degenerate_window(flat)".into()] } else { vec![format!("shape_{shape}")] }),
+        Err((kind, m)) => Verdict::fail(format!("C07/range/{}/Q|{kind}|ultra", en.name), format!("{} [Q]: {m} (stream: seed {seed}, len {len}, shape {shape}, grid 1/8)", spec.show())),
+    }
+}
+
 pub fn clauses() -> Vec<Clause> {
     let mut v = vec![];
     for (ei, en) in TABLE.iter().enumerate() {
@@ -305,6 +337,10 @@ pub fn clauses() -> Vec<Clause> {
         for (scalar, sc, q, t) in [(0i64, "f64", 1500u32, 40_000u32), (1, "f32", 800, 20_000), (2, "Q", 400, 8_000)] {
             let rule = format!("{}: {b}. N in 2..24 (thorough ..100); grammar stream of 0..14N+20 values (5N+10 in f32/Q) on a decimal or dyadic grid followed by one of: flat stretch of N(1+r)+2 values, step to a level up to 1e9 times smaller then flat, perfectly linear run with a slope tiny against the level, small wiggles around a far level, strictly monotone run. Tolerance: 8 ulps of the bound (8 + N for the quotients of N-term sums: Sma, Alma, CoG, Vsct; of the range width for a bound of 0). Non-trivial: >= 3 values checked and (some value within 1% of a bound, or a flat window occurred).", en.name);
             v.push(Clause::generated("C07", format!("C07/range/{}/{sc}", en.name), rule, q, t, strategy(ei, scalar), check).with_shard(if scalar == 2 { 50 } else { 250 }));
+        }
+        if !matches!(en.name, "Echo" | "GTE" | "LTE" | "Tanh" | "PFE") {
+            // (PFE: every run ends at the listed finding C07/range/PFE, nothing further would be explored)
+            v.push(Clause::generated("C07", format!("C07/ultra/{}/Q", en.name), format!("{}: {b}. Ultra-long histories: 135 000 values (thorough 1.1e6; past 2^16 and 2^17 updates) on the 1/8 grid derived from a generated seed (wide noise; walk with plateaus; zero stretches; ties around a level), N from the minimum to +6 (1 in 4: 9..24); the crate's code at the exact scalar, the bound checked at every step without rounding slack. Non-trivial: >= 70 000 outputs checked.", en.name), 1, 20, ultra_case(ei), ultra_check).with_shard(1));
         }
     }
     v
